@@ -345,6 +345,7 @@ inductive Label
   | acquire (l : Lk)
   | release (l : Lk)
   | send (c : Conn)
+  | recv                -- the connection's thread takes the next request off the wire (the marker is written after this point)
   | fin
   deriving DecidableEq, Repr, Inhabited
 
@@ -357,7 +358,7 @@ def finished (σ : State) : Tid → Bool
 def nextVisible (σ : State) : Tid → Option Label
   | .h c =>
     match σ.hpc c with
-    | .idle => match σ.hscript c with | [] => some .fin | _ => none
+    | .idle => match σ.hscript c with | [] => some .fin | _ => some .recv
     | .start _ => some (.acquire .disp)
     | .wantSub _ => some (.acquire .sub)
     | .relSub _ => some (.release .sub)
